@@ -40,6 +40,7 @@ def periodic_bound(kind, n, p):
 
 class C10(LZCheckMixin, PropertyCheck):
     pid = "C10"
+    source_tables = ["LZ"]   # tables / constants regenerated from /repo's source (gen/srctables.py)
     release_too = False
     rule = ("streams: periods p (quick: 64 sampled incl. 1,2,3,17,18,19,4094,4095,4096; thorough: all 1..4096) x 3 pattern contents "
             "(random bytes, random bits, one odd byte) x 4 total lengths (just above p, around p + k*L, several periods), through both "
